@@ -43,10 +43,10 @@ def damages(rng, tier):
     """(record kind, offset, bytes, tag)"""
     vals = [0x00, 0x01, 0x7F, 0x80, 0xFF]
     for off in range(32):
-        for v in (vals if tier != "quick" or off >= 16 else [0xFF]):
+        for v in (vals if tier != "quick" else ([0x00, 0xFF] if off >= 16 else [0xFF])):
             yield "sample_dir", off, bytes([v]), "dir[%d]" % off
     for off in range(48):
-        for v in (vals if tier != "quick" or off >= 16 else [0x00, 0xFF]):
+        for v in (vals if tier != "quick" else ([0x00, 0x01, 0xFF] if off >= 16 else [0xFF])):
             yield "sample", off, bytes([v]), "par[%d]" % off
     for _ in range(8 if tier == "quick" else 60):
         kind = rng.choice(["sample_dir", "sample"])
